@@ -30,6 +30,7 @@ from simkit.scenario import Case
 PROPERTY = "C14"
 LEVEL = "exploration"
 BUDGET = {"quick": 25, "thorough": 420}
+CASE_WALL = {"quick": 120, "thorough": 900}
 CHUNK = 24
 ENUMERATED = {"quick": False, "thorough": False}
 SHRINK_FIELDS = ("ops",)
